@@ -55,6 +55,17 @@ def bounded(rep, tier):
     else:
         rep.add(Result("C14.lookup-lru-sequences", BOUNDED_OK, klass="B", backend="native-oracle", function="mako.lookup:TemplateLookup.get_template", bound=bound2,
                        evaluations=n2, time_s=time.time() - t1, detail="each lookup renders its own file's content; the cache never exceeds 1.5n"))
+    t2 = time.time()
+    from vrf.bounded.lru_monitor import freshness_sequences
+    L3 = 3 if tier == "quick" else 5
+    n3, bad3 = freshness_sequences(L3)
+    bound3 = "every sequence of <= %d operations {touch file with mtime + 2 s, get_template} over 2 URIs, collection_size in {-1, 1, 2, 4}, filesystem_checks on/off" % L3
+    if bad3:
+        rep.add(Result("C14.freshness-sequences", VIOLATED, klass="B", backend="native-oracle", function="mako.lookup:TemplateLookup._check", bound=bound3, evaluations=n3,
+                       detail=bad3[0]["problem"], witness=bad3[0], replayed=True, replay={"failures": bad3[:3]}, time_s=time.time() - t2))
+    else:
+        rep.add(Result("C14.freshness-sequences", BOUNDED_OK, klass="B", backend="native-oracle", function="mako.lookup:TemplateLookup._check", bound=bound3, evaluations=n3,
+                       time_s=time.time() - t2, detail="a modified file is reloaded with checks on, whatever the collection size; unchanged files return the same object"))
     fails = [r for r in rep.results if r.klass == "B" and r.status == VIOLATED]
     if fails:
         for r in rep.results:
